@@ -84,3 +84,71 @@ def c13(tier, seed):
     for m in ms:
         explore_and_replay(rep, m, clauses_of("C13"))
     return rep.finish()
+
+
+def c03(tier, seed):
+    rep = core.Report("C03", tier, seed)
+    rep.assumptions = list(ASSUME) + [
+        "exact-rational rebalancing domain: prices {8,12,16}, multipliers {1,2,4}, fees (0,0) and (1, 1/16), targets in "
+        "{-1,-1/2,1/2,1,3/2} x NLV on two contracts and small lot vectors; prior holdings from every history of the model "
+        "up to the depth bound; trades below 1e-9 of NLV are 'nothing of economic size'",
+    ]
+    inv = ["TargetReached", "FrictionlessNlv", "NoSpuriousFailure"]
+    props = ["SecondRebalanceIdle"]
+    h = F(1, 2)
+    reqs_a = [req({"S1": h, "F4": h}), req({"S1": -h, "F4": F(3, 2)}), req({"F4": F(-1)}), req({"S1": F(3, 2)}),
+              req({}), req({"S1": F(3), "F4": F(-2)}, measure="lots")]
+    kw = dict(bids=(8, 12), spreads=(0, 4), invariants=inv, properties=props)
+    ms = []
+    if tier == "quick":
+        ms.append(model("reb-dy", ["S1", "F4"], ["quote", "trade", "rebal"], 4, fees="dy", dqs=(-2, 1), reqs=reqs_a, **kw))
+        ms.append(model("reb-free", ["S1", "F4"], ["quote", "rebal"], 4, fees="free", reqs=reqs_a[:5], **kw))
+    else:
+        ms.append(model("reb-dy", ["S1", "F4"], ["quote", "trade", "rebal"], 5, fees="dy", dqs=(-2, 1), reqs=reqs_a,
+                        maxrebal=2, **kw))
+        ms.append(model("reb-free", ["S1", "F4"], ["quote", "trade", "rebal"], 5, fees="free", dqs=(-2, 1),
+                        reqs=reqs_a[:5], **kw))
+        reqs_b = [req({"S2": F(1), "G1": F(-1)}), req({"G1": F(3, 2)}), req({"S2": h}), req({"S2": F(-1)}),
+                  req({"S2": F(2), "G1": F(5)}, measure="lots"), req({})]
+        ms.append(model("reb-b", ["S2", "G1"], ["quote", "trade", "rebal"], 5, fees="dy", dqs=(-1, 2), reqs=reqs_b, maxrebal=2, **kw))
+    for m in ms:
+        explore_and_replay(rep, m, clauses_of("C03"))
+    return rep.finish()
+
+
+def c12(tier, seed):
+    rep = core.Report("C12", tier, seed)
+    rep.assumptions = list(ASSUME) + [
+        "thresholds {1/16, 1/8}; imbalance weights exactly at, 1/64 below and 1/64 above the threshold are generated in a "
+        "dyadic model (prices 8 and 16, multipliers 1 and 2, no fees) in which binary floating point is exact; in "
+        "non-dyadic models a contract whose imbalance weight equals the threshold exactly is not compared",
+    ]
+    inv = ["NoZeroTrades", "NoSpuriousFailure"]
+    props = ["TradeIff"]
+    t16, t8 = F(1, 16), F(1, 8)
+    ws = [F(3, 64), F(4, 64), F(5, 64), F(-4, 64), F(-3, 64), F(7, 64), F(8, 64), F(9, 64)]
+    reqs_d = []
+    for thr in (t16, t8):
+        for w in ws:
+            reqs_d.append(req({"S1": w}, thr=thr))
+        reqs_d.append(req({"H2": F(1, 2)}, thr=thr))          # S1, if held, is liquidated whatever its size
+        reqs_d.append(req({"S1": F(1, 2), "H2": F(-1, 2)}, thr=thr))
+    reqs_l = [req({"S1": F(5, 2)}, measure="lots", fractional=False), req({"S1": F(5, 2)}, measure="lots"),
+              req({"S1": F(2), "H2": F(-7, 4)}, measure="lots", fractional=False),
+              req({"S1": F(3, 16)}, fractional=False), req({"S1": F(1, 64), "H2": F(-1, 64)}, fractional=False),
+              req({"H2": F(-1, 4)}, fractional=False, thr=t16), req({}, fractional=False)]
+    ms = []
+    depth = 4 if tier == "quick" else 5
+    ms.append(model("thr-dyadic", ["S1", "H2"], ["quote", "rebal"], depth, fees="free", bids=(8,), spreads=(0, 8),
+                    reqs=reqs_d, invariants=inv, properties=props, dyadic=True))
+    ms.append(model("lots", ["S1", "H2"], ["quote", "trade", "rebal"], depth, fees="dy", bids=(8, 12), spreads=(0, 4),
+                    dqs=(-1, 2), reqs=reqs_l, invariants=inv, properties=props))
+    if tier != "quick":
+        ms.append(model("thr-f4", ["S2", "F4"], ["quote", "trade", "rebal"], 5, fees="dy", bids=(8, 12), spreads=(0, 4),
+                        dqs=(-1, 2),
+                        reqs=[req({"S2": F(1, 2), "F4": F(1, 8)}, thr=t8), req({"F4": F(1, 16)}, thr=t16),
+                              req({"S2": F(-1, 4)}, thr=t8, fractional=False), req({"F4": F(1)}, thr=t16)],
+                        invariants=inv, properties=props))
+    for m in ms:
+        explore_and_replay(rep, m, clauses_of("C12"))
+    return rep.finish()
